@@ -204,7 +204,10 @@ namespace pika {
                 {
                     PIKA_VERIF_POST("bar.last", &base, old_phase, expected);
                     completion();
+                    PIKA_VERIF_POINT("bar.adjld", &base, 0, 0);
                     expected += expected_adjustment.load(std::memory_order_relaxed);
+                    PIKA_VERIF_POST("bar.adjv", &base, -expected_adjustment.load(std::memory_order_relaxed), expected);
+                    PIKA_VERIF_POINT("bar.adjst", &base, 0, 0);
                     expected_adjustment.store(0, std::memory_order_relaxed);
                     PIKA_VERIF_POINT("bar.publish", &base, 0, 0);
                     phase.store(old_phase + 2, std::memory_order_release);
@@ -247,9 +250,11 @@ namespace pika {
                 pika::util::detail::yield_while_timeout(
                     poll, busy_wait_timeout, "barrier::wait", false))
             {
+                PIKA_VERIF_POST("bar.spinok", &base, old_phase, 0);
                 return;
             }
 
+            PIKA_VERIF_POST("bar.block", &base, old_phase, do_busy_wait);
             pika::util::yield_while(poll, "barrier::wait", true);
         }
 
